@@ -23,8 +23,20 @@
 (*  - Euler number = referenced vertices - unique edges + faces.           *)
 (* Left unconstrained (direct counting is ambiguous on a degenerate face): *)
 (*  whether a vertex is its own neighbour through the self edge of a face  *)
-(*  [a,a,b]; whether such a face counts once or twice in the degree /      *)
-(*  incident-face list of a; whether unreferenced vertices count as bodies.*)
+(*  [a,a,b]; whether unreferenced vertices count as bodies; whether a face *)
+(*  [a,a,b] is counted once (per face) or twice (per corner) at a.  The    *)
+(*  last one is a parameter of the reference, not a licence per element:   *)
+(*  "incident faces and degree" are one incidence relation, so the degree  *)
+(*  and both incident-face lists must follow ONE of the two conventions.   *)
+(* Options of the anchored functions (documented parameters):              *)
+(*  connected_components(min_len, nodes): components of the graph induced  *)
+(*  on `nodes` (default: the ends of the edges) with at least min_len      *)
+(*  nodes, the same for every engine (scipy, networkx, None = automatic);  *)
+(*  split(only_watertight=True): parts are whole face components; a part   *)
+(*  returned unrepaired is watertight; every watertight component of four  *)
+(*  or more faces is returned; the answer does not depend on the engine    *)
+(*  (hole filling and the fate of smaller components stay unconstrained).  *)
+(*  An empty face array: watertightness / winding are left unconstrained.  *)
 (***************************************************************************)
 \* NB clause names (prefix + suffix) stay below 50 characters: TLC wraps PrintT output at 80 columns
 \* and the harness reads one REJECT tuple per line.
@@ -110,6 +122,7 @@ OkEdges(c, E, S) ==
     ELSE IF c.es # S THEN "edges_sorted_is_rowwise_sorted_edges"
     ELSE IF c.ef # EdgesFace(c.faces) THEN "edges_face_is_owning_face_of_each_edge_row"
     ELSE IF c.f2e # E THEN "faces_to_edges_stacked_order"
+    ELSE IF c.f2e0 # E THEN "faces_to_edges_without_index"
     ELSE IF c.f2ei # EdgesFace(c.faces) THEN "faces_to_edges_face_index"
     ELSE "ok"
 
@@ -152,13 +165,21 @@ OkAdjacency(c, S) ==
          THEN "graph_face_adjacency_of_mesh_pairs"
     ELSE "ok"
 
-\* vertex neighbours, incident faces, degree
+\* vertex neighbours, incident faces, degree.  A face with a repeated index is incident to that
+\* vertex once per face or once per corner: one convention for the lists and the degree together.
+Conventions == {"once_per_face", "once_per_corner"}
+Corners(F, f, v) == Cardinality({j \in 1..3 : F[f + 1][j] = v})
+Listed(row, f) == Cardinality({k \in 1..Len(row) : row[k] = f})
+IncMult(F, f, v, conv) == IF conv = "once_per_face" THEN 1 ELSE Corners(F, f, v)
+IncCount(F, v, conv) == IF conv = "once_per_face" THEN Cardinality(Incident(F, v)) ELSE Occur(F, v)
+RowsFollow(F, nv, vf, conv) ==
+    \A v \in 0..(nv - 1) : \A f \in Incident(F, v) : Listed(vf[v + 1], f) = IncMult(F, f, v, conv)
+DegreeFollows(F, nv, vd, conv) == \A v \in 0..(nv - 1) : vd[v + 1] = IncCount(F, v, conv)
 OkIncidence(F, nv, vf, what) ==
     IF Len(vf) # nv THEN what \o "_shape"
     ELSE IF \E v \in 0..(nv - 1) : {x \in Range(vf[v + 1]) : x # -1} # Incident(F, v)
          THEN what \o "_not_the_faces_at_vertex"
-    ELSE IF \E v \in 0..(nv - 1) : Occur(F, v) = Cardinality(Incident(F, v)) /\
-              Cardinality({k \in 1..Len(vf[v + 1]) : vf[v + 1][k] # -1}) # Cardinality(Incident(F, v))
+    ELSE IF {conv \in Conventions : RowsFollow(F, nv, vf, conv)} = {}
          THEN what \o "_lists_a_face_once"
     ELSE "ok"
 OkVertices(c, U) ==
@@ -177,8 +198,15 @@ OkVertices(c, U) ==
     ELSE IF a # "ok" THEN a
     ELSE IF b # "ok" THEN b
     ELSE IF Len(c.vd) # nv THEN "vertex_degree_shape"
-    ELSE IF \E v \in 0..(nv - 1) : c.vd[v + 1] < Cardinality(Incident(F, v)) \/ c.vd[v + 1] > Occur(F, v)
+    ELSE IF {conv \in Conventions : DegreeFollows(F, nv, c.vd, conv)} = {}
          THEN "vertex_degree_counts_faces_at_vertex"
+    ELSE IF {conv \in Conventions : RowsFollow(F, nv, c.vf, conv) /\ RowsFollow(F, nv, c.vfi, conv)
+                                     /\ DegreeFollows(F, nv, c.vd, conv)} = {}
+         THEN "vertex_degree_disagrees_with_incident_faces"
+    ELSE IF c.stray # 0 THEN "vertex_outside_the_faces_has_incidence"
+    ELSE IF {<<c.fsp[k][1], c.fsp[k][2]>> : k \in 1..Len(c.fsp)}
+            # {<<v, f>> \in (0..(nv - 1)) \X FaceIds(F) : f \in Incident(F, v)}
+         THEN "faces_sparse_is_the_incidence_relation"
     ELSE "ok"
 
 \* connected components: list of components (any order) -> partition
@@ -200,25 +228,96 @@ OkComponents(c, S, U) ==
         r == << OkPartition(c.split, fc, "split"),
                 OkPartition(c.gsplit.scipy, fc, "graph_split_scipy"),
                 OkPartition(c.gsplit.networkx, fc, "graph_split_networkx"),
+                OkPartition(c.gsplit.auto, fc, "graph_split_auto"),
                 OkPartition(c.cc.scipy, fc, "components_scipy_faces"),
                 OkPartition(c.cc.networkx, fc, "components_networkx_faces"),
+                OkPartition(c.cc.auto, fc, "components_auto_faces"),
                 OkPartition(c.vcc.scipy, vc, "components_scipy_vertices"),
                 OkPartition(c.vcc.networkx, vc, "components_networkx_vertices"),
+                OkPartition(c.vcc.auto, vc, "components_auto_vertices"),
                 OkLabels(c.ccl, Len(F), fc, "component_labels_faces"),
                 OkLabels(c.vccl, nv, vc, "component_labels_vertices") >>
         bad == {k \in 1..Len(r) : r[k] # "ok"}
     IN
     IF bad # {} THEN r[CHOOSE k \in bad : \A j \in bad : k <= j]
-    ELSE IF c.bc \notin {Cardinality(vcRef), Cardinality(vc)} THEN "body_count_vertex_connected_groups"
+    \* c.bcx = vertices of the real mesh that were left out of the record (all unreferenced)
+    ELSE IF c.bc \notin {Cardinality(vcRef), Cardinality(vc) + c.bcx} THEN "body_count_vertex_connected_groups"
+    ELSE "ok"
+
+\* documented options of connected_components: min_len and nodes (all / None / a subset)
+Induced(Sym, Nodes) == {p \in Sym : p[1] \in Nodes /\ p[2] \in Nodes}
+Ends(Sym) == {p[1] : p \in Sym}
+CompsMin(Nodes, Sym, ml) == {C \in Components(Nodes, Induced(Sym, Nodes)) : Cardinality(C) >= ml}
+OkCcx(c, S, U) ==
+    LET x == c.ccx  F == c.faces
+        fsym == SymPairs(AdjRows(S))
+        vsym == VertexSym(U)
+        fN == IF x.mode = "all" THEN FaceIds(F) ELSE IF x.mode = "none" THEN Ends(fsym) ELSE Range(x.fnodes)
+        vN == IF x.mode = "all" THEN 0..(c.nv - 1) ELSE IF x.mode = "none" THEN Referenced(F) ELSE Range(x.vnodes)
+        fw == CompsMin(fN, fsym, x.ml)
+        vw == CompsMin(vN, vsym, x.ml)
+        r == << OkPartition(x.f.scipy, fw, "cc_opt_scipy_faces"),
+                OkPartition(x.f.networkx, fw, "cc_opt_networkx_faces"),
+                OkPartition(x.f.auto, fw, "cc_opt_auto_faces"),
+                OkPartition(x.v.scipy, vw, "cc_opt_scipy_vertices"),
+                OkPartition(x.v.networkx, vw, "cc_opt_networkx_vertices"),
+                OkPartition(x.v.auto, vw, "cc_opt_auto_vertices") >>
+        bad == {k \in 1..Len(r) : r[k] # "ok"}
+    IN IF bad # {} THEN r[CHOOSE k \in bad : \A j \in bad : k <= j] ELSE "ok"
+
+\* split(only_watertight=True): parts as lists of parent face ids, -1 = a face added by hole filling
+SubWatertight(S, C) ==
+    \A k \in 1..Len(S) : FaceOfRow(k) \in C => Cardinality({j \in Occ(S, S[k]) : FaceOfRow(j) \in C}) = 2
+\* a part belongs to a component C when it holds all of C and every other entry is an added face:
+\* -1, or (the decoder matches faces by their vertex triple) a parent face on the vertices of C
+VertsOf(F, C) == UNION {Range(F[f + 1]) : f \in C}
+PartOf(F, fc, p) ==
+    {C \in fc : C \subseteq Range(p) /\
+                 \A x \in Range(p) \ C : x = -1 \/ (x \in FaceIds(F) /\ Range(F[x + 1]) \subseteq VertsOf(F, C))}
+Core(F, fc, p) == LET cand == PartOf(F, fc, p)
+                  IN CHOOSE C \in cand : \A D \in cand : Cardinality(D) <= Cardinality(C)
+OkWsplitOne(F, parts, fc, S, what) ==
+    IF \E k \in 1..Len(parts) : PartOf(F, fc, parts[k]) = {} THEN what \o "_part_is_not_a_component"
+    ELSE LET core == [k \in 1..Len(parts) |-> Core(F, fc, parts[k])] IN
+    IF \E k \in 1..Len(parts) : \E x \in core[k] : Listed(parts[k], x) # 1 THEN what \o "_repeats_a_face"
+    ELSE IF Cardinality(Range(core)) # Len(parts) THEN what \o "_repeats_a_component"
+    ELSE IF \E k \in 1..Len(parts) : Range(parts[k]) = core[k] /\ ~SubWatertight(S, core[k])
+         THEN what \o "_returned_an_open_part"
+    ELSE IF \E C \in fc : Cardinality(C) >= 4 /\ SubWatertight(S, C) /\ C \notin Range(core)
+         THEN what \o "_dropped_a_closed_part"
+    ELSE "ok"
+Cores(F, fc, parts) == {Core(F, fc, parts[k]) : k \in 1..Len(parts)}
+OkWsplit(c, S) ==
+    LET w == c.wsplit  F == c.faces
+        fc == FaceComponents(F, S)
+        r == << OkWsplitOne(F, w.scipy, fc, S, "wsplit_scipy"),
+                OkWsplitOne(F, w.networkx, fc, S, "wsplit_networkx"),
+                OkWsplitOne(F, w.auto, fc, S, "wsplit_auto"),
+                OkWsplitOne(F, w.dflt, fc, S, "wsplit_default") >>
+        bad == {k \in 1..Len(r) : r[k] # "ok"}
+    IN
+    IF bad # {} THEN r[CHOOSE k \in bad : \A j \in bad : k <= j]
+    ELSE IF Cardinality({Cores(F, fc, w.scipy), Cores(F, fc, w.networkx), Cores(F, fc, w.auto),
+                         Cores(F, fc, w.dflt)}) # 1
+         THEN "split_only_watertight_depends_on_engine"
     ELSE "ok"
 
 OkScalars(c, E, S, U) ==
     IF c.eul # Euler(c.faces, U) THEN "euler_number_v_minus_e_plus_f"
+    ELSE IF Len(c.faces) = 0 THEN "ok"
     ELSE IF c.wt # Watertight(S) THEN "is_watertight_every_edge_twice"
     ELSE IF c.wc # WindingConsistent(E, S) THEN "is_winding_consistent_paired_edges_reversed"
     ELSE IF c.gwt # Watertight(S) THEN "graph_is_watertight_every_edge_twice"
     ELSE IF c.gwc # WindingConsistent(E, S) THEN "graph_is_watertight_winding_flag"
     ELSE "ok"
+
+\* shared_edges(first part of the faces, the rest): the sorted edges present in both parts
+OkShared(c, S) ==
+    LET a == {S[k] : k \in {j \in 1..Len(S) : FaceOfRow(j) < c.cut}}
+        b == {S[k] : k \in {j \in 1..Len(S) : FaceOfRow(j) >= c.cut}}
+    IN IF {Sorted(c.she[k]) : k \in 1..Len(c.she)} # a \cap b THEN "shared_edges_are_the_edges_in_both_parts"
+       ELSE IF Len(c.she) # Cardinality(a \cap b) THEN "shared_edges_repeat"
+       ELSE "ok"
 
 \* angle defects: recorded as round(sum(defects) / 2 pi * 10^6); only judged on closed manifolds
 Abs(x) == IF x < 0 THEN -x ELSE x
@@ -227,7 +326,7 @@ OkDefects(c, U) ==
     THEN "vertex_defects_sum_two_pi_euler"
     ELSE "ok"
 
-Clause(c) ==
+ClauseMesh(c) ==
     LET F == c.faces
         E == Edges(F)
         S == EdgesSorted(F)
@@ -237,10 +336,39 @@ Clause(c) ==
         r3 == OkAdjacency(c, S)
         r4 == OkVertices(c, U)
         r5 == OkComponents(c, S, U)
-        r6 == OkScalars(c, E, S, U)
-        r7 == OkDefects(c, U)
+        r6 == OkCcx(c, S, U)
+        r7 == OkWsplit(c, S)
+        r8 == OkScalars(c, E, S, U)
+        r9 == OkShared(c, S)
+        r10 == OkDefects(c, U)
     IN IF r1 # "ok" THEN r1 ELSE IF r2 # "ok" THEN r2 ELSE IF r3 # "ok" THEN r3
-       ELSE IF r4 # "ok" THEN r4 ELSE IF r5 # "ok" THEN r5 ELSE IF r6 # "ok" THEN r6 ELSE r7
+       ELSE IF r4 # "ok" THEN r4 ELSE IF r5 # "ok" THEN r5 ELSE IF r6 # "ok" THEN r6
+       ELSE IF r7 # "ok" THEN r7 ELSE IF r8 # "ok" THEN r8 ELSE IF r9 # "ok" THEN r9 ELSE r10
+
+\* free functions alone, called with vertex indices too large for a mesh (recorded through the
+\* order-preserving relabelling onto 0..nv-1): edges, adjacency, watertight / winding, shared edges,
+\* and (c.hascc) vertex components with nodes = None for every engine
+ClauseFree(c) ==
+    LET F == c.faces
+        E == Edges(F)
+        S == EdgesSorted(F)
+        U == Range(S)
+        vw == VertexComponents(Referenced(F), U)
+        a == OkAdjRows(F, S, c.gfa, c.gfae, "graph_face_adjacency")
+        r == << IF c.f2e # E THEN "faces_to_edges_stacked_order"
+                ELSE IF c.f2e0 # E THEN "faces_to_edges_without_index"
+                ELSE IF c.f2ei # EdgesFace(F) THEN "faces_to_edges_face_index" ELSE "ok",
+                a,
+                IF c.gwt # Watertight(S) THEN "graph_is_watertight_every_edge_twice"
+                ELSE IF c.gwc # WindingConsistent(E, S) THEN "graph_is_watertight_winding_flag" ELSE "ok",
+                OkShared(c, S),
+                IF ~c.hascc THEN "ok" ELSE OkPartition(c.cc.scipy, vw, "components_scipy_vertices"),
+                IF ~c.hascc THEN "ok" ELSE OkPartition(c.cc.networkx, vw, "components_networkx_vertices"),
+                IF ~c.hascc THEN "ok" ELSE OkPartition(c.cc.auto, vw, "components_auto_vertices") >>
+        bad == {k \in 1..Len(r) : r[k] # "ok"}
+    IN IF bad # {} THEN r[CHOOSE k \in bad : \A j \in bad : k <= j] ELSE "ok"
+
+Clause(c) == IF c.kind = "free" THEN ClauseFree(c) ELSE ClauseMesh(c)
 
 Init == i = 1
 Next == i < Len(Cases) /\ i' = i + 1
